@@ -163,8 +163,8 @@ H_noiface(s, e) ==
 
 H_up(s, e) ==
   Chk(s, << <<e.g = s.gen /\ s.ph = "ready", "up.phase">>,
-            <<ToSet(e.ann) = Listening(s), "G2._interfaces is not the set of listening interfaces">>,
-            <<ToSet(e.named) = Listening(s), "G2.log line names other interfaces than those listening">>,
+            <<ToSet(e.ann) = Listening(s) \ {i \in Ifs : s.rep[i] # "none"}, "G2._interfaces is not the set of listening interfaces">>,
+            <<ToSet(e.named) = ToSet(e.ann), "G2.log line names other interfaces than those listening">>,
             <<Listening(s) # {}, "G4.goes on without any interface">>,
             <<AllReported(s), "G3.an interface that did not come up is not reported">>,
             <<StartupOver(s, e), "G3.start-up takes longer than the time-out">> >>,
@@ -179,7 +179,7 @@ H_disc_new(s, e) ==
 
 H_announce(s, e) ==
   Chk(s, << <<(e.g = s.gen /\ s.disc = "open") \/ e.g \in s.oldDisc, "announce.by a responder that is closed / gone">>,
-            <<e.p \in Listening(s), "G2.announced a port that does not listen">> >>, {s})
+            <<e.p \in Listening(s) \/ e.p \in s.crashInj, "G2.announced a port that does not listen">> >>, {s})
 
 H_disc_end(s, e) ==
   Chk(s, << <<e.g # s.gen \/ s.disc = "closed", "disc_end.responder thread ends by itself">> >>, {s})
